@@ -24,7 +24,7 @@ theorem margLoop_pr (n : ℕ) (val : ℕ → α) :
     intro k s hk hkn hpr
     rw [margLoop]
     have hs : (margBody n val s k).pr = closedList n (k - 1) 2 (n - (k - 1)) := by
-      simp only [margBody, if_pos (show 2 < k by omega), hpr]
+      simp only [margBody_eq_ref, margBodyRef, if_pos (show 2 < k by omega), hpr]
       rw [margStep_closed n k (by omega) hkn]
       congr 1; omega
     rw [ih (k - 1) _ (by omega) (by omega) hs]
